@@ -231,6 +231,8 @@ def show(e, depth=0):
     if k == "Call":
         args = ", ".join(show(a, d) for a in e.get("args", []))
         name = e.get("short") or (show(e.get("callee"), d) if e.get("callee") else "?")
+        if e.get("targs") and e.get("cls") != "nifly::NiStreamReversible":
+            name += "<%s>" % ",".join(str(x) for x in e["targs"])
         r = e.get("recv")
         if r is not None and not (is_node(r) and r["k"] == "This"):
             return "%s.%s(%s)" % (show(r, d), name, args)
@@ -510,6 +512,57 @@ class Facts:
                         c.setdefault(t, []).append((fid, node))
             self._callers = c
         return self._callers
+
+    # ---- does a callee (transitively) remove elements from containers? (used to keep "inserted" facts alive)
+    REMOVERS = {"clear", "erase", "pop_back", "resize", "assign", "swap", "pop_front", "remove", "remove_if", "extract"}
+
+    def removing_functions(self):
+        """fids whose transitive closure contains a remover call on any std container (coarse, sound for keeping
+        insertion facts: a callee outside this set cannot shrink any container)"""
+        if getattr(self, "_removing", None) is None:
+            direct = set()
+            for fid, fn in self.fns.items():
+                for n in walk(fn.get("body") or {}):
+                    if n["k"] == "Call" and n.get("ext") and n.get("short") in self.REMOVERS:
+                        direct.add(fid)
+                        break
+                    if n["k"] in ("Assign",) and is_node(n.get("l")) and "std::" in ((n["l"].get("ct") or n["l"].get("t")) or "") \
+                            and n["l"]["k"] != "Ref":
+                        direct.add(fid)  # whole-container assignment to a member/param path
+                        break
+                    if n["k"] == "OpCall" and n.get("op") == "=" and n.get("args") and is_node(n["args"][0]) and \
+                            n["args"][0]["k"] != "Ref" and "std::" in ((n["args"][0].get("ct") or n["args"][0].get("t")) or ""):
+                        direct.add(fid)
+                        break
+            rem = set(direct)
+            changed = True
+            while changed:
+                changed = False
+                for fid in self.fns:
+                    if fid in rem:
+                        continue
+                    if self.callee_ids(fid) & rem:
+                        rem.add(fid)
+                        changed = True
+            self._removing = rem
+        return self._removing
+
+    def may_remove(self, call, argi):
+        ts = self.call_targets(call)
+        if not ts:
+            return True
+        rem = self.removing_functions()
+        for t in ts:
+            if t not in self.fns:
+                if call.get("ext") and (call.get("short") in ("sort", "unique", "remove", "remove_if", "swap", "reverse",
+                                                               "rotate", "stable_sort", "erase", "clear")):
+                    return True
+                if call.get("ext"):
+                    continue  # other std functions taking the object by reference do not shrink it
+                return True
+            if t in rem:
+                return True
+        return False
 
     def excerpt(self, fn, node=None, ctx=0):
         try:
